@@ -109,7 +109,7 @@ pub fn slice_to_end(w: &mut World, k: u64, max_ticks: u32) -> Result<End, String
     }
     Ok(End::Stuck)
 }
-fn ticks_of(w: &World) -> u32 {
+pub fn ticks_of(w: &World) -> u32 {
     w.log.0.lock().unwrap_or_else(|e| e.into_inner()).recs.iter().filter(|r| matches!(r, Rec::Tick { .. })).count() as u32
 }
 fn w_max_ticks(_w: &World) -> u32 {
